@@ -175,6 +175,62 @@ def trace_validation(chk, model, quick, sd):
     return len(traces), _report(chk, traces, reached, crashed, seeds)
 
 
+def geometry_routes(chk):
+    """C10 on the geometry keys AS A CHANNEL SEES THEM: a user channel whose current reads radius / length / axial_resistivity
+    from the parameters it is handed must see the value whichever way it was supplied (set, data_set, make_trainable + params,
+    write_trainables).  The probe channels of ProbeSim.tla do not read geometry, so this route is compared on its own."""
+    from harness.jaxsetup import jax, jnp, np, jx
+    from jaxley.channels import Channel
+
+    class G(Channel):
+        def __init__(self, name=None):
+            self.current_is_in_mA_per_cm2 = True
+            super().__init__(name)
+            self.channel_params = {"G_g": 1e-4}
+            self.channel_states = {}
+            self.current_name = "i_G"
+
+        def update_states(self, states, dt, v, params):
+            return {}
+
+        def compute_current(self, states, v, params):
+            return params["G_g"] * (params["radius"] + 0.1 * params["length"] + 0.001 * params["axial_resistivity"]) * (v + 50.0)
+
+        def init_state(self, states, v, params, delta_t):
+            return {}
+
+    def fresh():
+        comp = jx.Compartment()
+        cell = jx.Cell([jx.Branch(comp, 2), jx.Branch(comp, 1), jx.Branch(comp, 2)], parents=[-1, 0, 0])
+        cell.insert(G())
+        cell.set("v", -70.0)
+        cell.record("v", verbose=False)
+        return cell
+
+    n = 0
+    for key, x in (("radius", 2.5), ("length", 17.0), ("axial_resistivity", 900.0)):
+        for vname, sel in (("branch2", lambda c: c.branch(2)), ("comp", lambda c: c.branch(0).comp(1)), ("module", lambda c: c)):
+            outs = {}
+            kw = dict(delta_t=0.025, t_max=0.2)
+            c = fresh(); sel(c).set(key, x)
+            outs["set"] = np.asarray(jx.integrate(c, **kw))
+            c = fresh(); ps = sel(c).data_set(key, jnp.asarray(x), None)
+            outs["data_set"] = np.asarray(jx.integrate(c, param_state=ps, **kw))
+            c = fresh(); sel(c).make_trainable(key, verbose=False)
+            outs["make_trainable"] = np.asarray(jx.integrate(c, params=[{key: jnp.asarray([x])}], **kw))
+            c = fresh(); sel(c).make_trainable(key, verbose=False); c.write_trainables([{key: jnp.asarray([x])}]); c.delete_trainables()
+            outs["write_trainables"] = np.asarray(jx.integrate(c, **kw))
+            base = fresh()
+            untouched = np.asarray(jx.integrate(base, **kw))
+            for route, o in outs.items():
+                n += 1
+                if not np.allclose(o, outs["set"], rtol=1e-10, atol=1e-10) or np.allclose(o, untouched, rtol=1e-10, atol=1e-10):
+                    chk.violation({"kind": "geometry_seen_by_channel", "key": key, "route": route, "view": vname},
+                                  {"max_abs_difference_to_set": float(np.max(np.abs(o - outs["set"]))),
+                                   "max_abs_difference_to_untouched": float(np.max(np.abs(o - untouched)))})
+    return n
+
+
 def main(which):
     chk = C.Check(which, "model_checking")
     quick = C.tier() == "quick"
@@ -310,6 +366,7 @@ def main(which):
         chk.set("recorded_trace_events", tot["trace_events"])
     if which == "C10":
         chk.set("set_vs_data_set_vs_trainable_routes_compared", tot["routes"])
+        chk.set("geometry_routes_through_a_channel_compared", geometry_routes(chk))
     chk.set("exhaustive", True)
     chk.set("evaluations", tot["transitions"] + tot["refusals"])
     chk.set("distinct_nontrivial", states)
